@@ -231,6 +231,10 @@ func genChan(g *simrt.Rng, e *Env, nCli, maxMsg, maxSize int, ends []int) ChanPl
 			c.RecvCtx[side] = 1 + g.IntN(2)
 			c.RecvCtxUs[side] = simrt.Pick(g, 1, 20, 300, 3000, 50000)
 		}
+		if g.Bool(0.08) {
+			c.SendCtx[side] = 1 + g.IntN(2)
+			c.SendCtxUs[side] = simrt.Pick(g, 1, 20, 300, 3000, 50000)
+		}
 	}
 	if c.End == EndClientClose && g.Bool(0.15) {
 		// open+close batch
@@ -309,6 +313,11 @@ func genAckRace(g *simrt.Rng, tier string) *FlowPlan {
 	w := p.Opt.Window
 	for i := 2 + g.IntN(2); i > 0; i-- { // streams towards the client
 		c := ChanPlan{End: EndServerClose, SrvChanCtx: true}
+		if g.Bool(0.4) {
+			// a sender with a deadline on every Send: it expires while the frame waits for room
+			c.SendCtx[1] = 1 + g.IntN(2)
+			c.SendCtxUs[1] = simrt.Pick(g, 1, 20, 300, 3000)
+		}
 		c.C2S = []Msg{{Size: hdrSize + g.IntN(8)}}
 		c.S2C = genMsgs(g, 6+g.IntN(10), w, 3*w, false, false)
 		c.EndRecv = 1
@@ -468,6 +477,7 @@ func runFlowX(t *testing.T, seed uint64, p *FlowPlan, o RunOpts, prop string, se
 		rep.count("probe:compression_runs", 1)
 	}
 	rep.count("probe:receives_repeated_after_own_deadline", int64(r.recvCtxExpired))
+	rep.count("probe:sends_repeated_after_own_deadline", int64(r.sendCtxExpired))
 	return rep
 }
 
